@@ -13,15 +13,7 @@ from ..model import ClassRef
 
 LEVEL = 'other'
 EXPLANATION = (
-    'Static analysis. (R1) one comparison key: orderitems (folded over all pairs of short integer tuples) is the sign of '
-    'the first difference with zero padding -- antisymmetric and zero exactly on equal padded keys; ==, <, <=, >, >= of '
-    'every lexical class come from the one wrapper over orderitems; hashitem hashes sort_tuple; for each concrete class the '
-    'fields flowing into sort_tuple are the fields flowing into spec, and sort_tuple starts with the type rank. (R2) every '
-    'class that defines __eq__ defines __hash__ in the same body. (R3) immutability: attribute stores on lexical instances '
-    'occur only during construction; __setattr__/__delattr__ guards are installed and init() switches them on. (R4) the '
-    'construction cache (DequeCache.__setitem__ folded over every reachable small state, cache sizes 0..2): index and reverse '
-    'index stay paired, eviction removes every key of the evicted item, size bound holds, nothing raises. Injectivity of the '
-    'flattened key, transitivity on real items, pickling/copying and cache transparency for real items are declined.')
+    'Static analysis. (R1) one comparison key: orderitems (folded over all pairs of short integer tuples) is the sign of the first difference with zero padding -- antisymmetric and zero exactly on equal padded keys; ==, <, <=, >, >= of every lexical class come from the one wrapper over orderitems; hashitem hashes sort_tuple; for each concrete class the fields flowing into sort_tuple are the fields flowing into spec, and sort_tuple starts with the type rank. (R2) every class that defines __eq__ defines __hash__ in the same body. (R3) immutability: attribute stores on lexical instances occur only during construction; __setattr__/__delattr__ guards are installed and init() switches them on. (R4) the construction cache (DequeCache.__setitem__ folded over every reachable small state, cache sizes 0..2): index and reverse index stay paired, eviction removes every key of the evicted item, size bound holds, nothing raises. Injectivity of the flattened key, transitivity on real items, pickling/copying and cache transparency for real items are declined. (R5) cache invisibility: metacall.call folded with the spec cached / never cached / evicted, for constructible items and the non-constructible system predicates.')
 TRUSTED = ['CPython ast', 'sa.minieval', 'itertools.zip_longest / starmap semantics']
 ASSUMPTIONS = ['sort tuples consist of integers (as every constructor in lang/lex.py builds them)']
 
